@@ -191,8 +191,17 @@ def make_image(inp):
 
 def call_blur(inp, img):
     _, _, rvb = mods()
-    return rvb.RadiallyVaryingBlur().blur(img, alpha=inp['alpha'], real_image_width=inp.get('rw', 0.2), real_viewing_distance=inp.get('rd', 0.7),
-                                          centre=tuple(inp['gaze']), mode=inp['mode'], equi=bool(inp.get('equi')))
+    kw = dict(alpha=inp['alpha'], real_image_width=inp.get('rw', 0.2), real_viewing_distance=inp.get('rd', 0.7), mode=inp['mode'], equi=bool(inp.get('equi')))
+    if inp.get('warm'):
+        # the same object was used before with another gaze, given as a list that the caller then edits in place:
+        # the blur must still be the blur for the gaze it is handed now
+        obj = rvb.RadiallyVaryingBlur()
+        gaze = [float(g) for g in inp['warm']]
+        obj.blur(img.clone(), centre=gaze, **kw)
+        for k, g in enumerate(inp['gaze']):
+            gaze[k] = float(g)
+        return obj.blur(img, centre=gaze, **kw)
+    return rvb.RadiallyVaryingBlur().blur(img, centre=tuple(inp['gaze']), **kw)
 
 
 def lod_map_of(inp):
@@ -330,6 +339,8 @@ def gen_blur_case(rng, small=False):
         inp['value'] = rng.choice([0.5, 1.0, 0.0, 0.25, rng.random()])
     if inp['kind'] == 'ramp':
         inp['scale'] = rng.choice([1.0, 2.0, 255.0]); inp['offset'] = rng.choice([0.0, -1.0, 10.0])
+    if rng.random() < 0.3 and inp['kind'] != 'const':
+        inp['warm'] = gen_gaze(rng, h, w, equi)              # object reused after an in-place edit of the caller's gaze list
     return inp
 
 
